@@ -185,6 +185,7 @@ func workersN() int {
 
 // runCheck is the body of a registered check.
 func runCheck(prop, tier string, seed uint64) int {
+	defer os.RemoveAll(filepath.Join(os.TempDir(), fmt.Sprintf("verif-cand-%d", os.Getpid())))
 	t0 := time.Now()
 	known := loadKnown()
 	agg := newAgg()
